@@ -31,7 +31,8 @@ def main():
     if eng is None:
         print(f"unknown property {pid}", file=sys.stderr)
         return 2
-    env = dict(os.environ, CARGO_NET_OFFLINE="true", VERIF_ROOT=os.environ.get("VERIF_SCRATCH_ROOT", ROOT))
+    env = dict(os.environ, CARGO_NET_OFFLINE="true", VERIF_ROOT=os.environ.get("VERIF_SCRATCH_ROOT", ROOT),
+               VERIF_REGRESS=os.path.join(ROOT, "regress"))
     b = subprocess.run(["cargo", "build", "--release", "-q", "-p", eng], cwd=ROOT, env=env,
                        stdout=subprocess.PIPE, stderr=subprocess.STDOUT, text=True)
     if b.returncode != 0:
